@@ -1,6 +1,7 @@
 package simrt
 
 import (
+	"math/rand"
 	"sync/atomic"
 	"testing/synctest"
 	"time"
@@ -22,6 +23,7 @@ func (s *Sim) SetSticky(den int) { s.stickyDen = den }
 
 func (s *Sim) loop(root func(s *Sim)) {
 	s.start = time.Now()
+	rand.Seed(int64(s.Seed)) // BFE uses the global math/rand source in a few places
 	s.arrive = make(chan struct{}, 1)
 	curSim.Store(s)
 	atomic.AddInt32(&activeSims, 1)
